@@ -1,6 +1,7 @@
 package main
 
 import (
+	"context"
 	"encoding/json"
 	"flag"
 	"fmt"
@@ -175,6 +176,18 @@ func cmdCheck(args []string) int {
 		}
 		for k := range r.Exec.sc.uncontracted {
 			uncontracted[k] = true
+		}
+	}
+	if trusted[be64LemmaNote] {
+		f := filepath.Join(runDir, "lemma_be64.smt2")
+		os.WriteFile(f, []byte(be64LemmaSMT), 0o644)
+		out, _ := runSolver(context.Background(), solvers[2], f, 60000)
+		if firstVerdict(out) != "unsat" {
+			engineErrs = append(engineErrs, "arithmetic lemma be64_decomp was not proved by cvc5: "+firstVerdict(out))
+		} else {
+			total++
+			discharged++
+			bySolver["cvc5"]++
 		}
 	}
 	for _, l := range knownHit {
